@@ -218,14 +218,27 @@ func runC13(e *core.Env) {
 	foreign := e.Choose("gen", 5, "foreign") == 4
 	buildArg := e.Choose("gen", 3, "buildarg") == 2
 	var baseOld, baseNew *gen.RealResult
-	spec := gen.RealSpec{Docker: docker, Comp: comp, MinOwn: 1, Foreign: foreign, BuildArg: buildArg}
+	// an image as an earlier invocation with a data limit left it: descriptors carry their content inline
+	inline := e.Choose("gen", 4, "inline") == 3
+	g.InlineChildren = inline
+	spec := gen.RealSpec{Docker: docker, Comp: comp, MinOwn: 1, Foreign: foreign, BuildArg: buildArg, Inline: inline}
+	// the base images are published in the image's own repository or, as base images usually are, in another one
+	baseEP, baseRef := ep, base
+	if withBase && e.Choose("gen", 2, "baserepo") == 1 {
+		if useLayout {
+			baseEP = &endpoint{dir: e.TempDir()}
+		} else {
+			baseEP = &endpoint{reg: ep.reg, repo: "library/os"}
+		}
+		baseRef = strings.TrimSuffix(baseEP.refStr("x"), ":x")
+	}
 	if withBase {
 		baseOld = g.RealImageSpec(gen.RealSpec{Docker: docker, Comp: comp, MinOwn: 1})
 		baseNew = g.RealImageSpec(gen.RealSpec{Docker: docker, Comp: comp, MinOwn: 1})
 		spec.Base = baseOld
 		if !useLayout {
 			// (a layout's path differs from process to process and would make the image's digest differ with it)
-			spec.Annot = map[string]string{"org.opencontainers.image.base.name": base + ":base-new", "org.opencontainers.image.base.digest": baseOld.Node.Digest}
+			spec.Annot = map[string]string{"org.opencontainers.image.base.name": baseRef + ":base-new", "org.opencontainers.image.base.digest": baseOld.Node.Digest}
 		}
 	}
 	res1 := g.RealImageSpec(spec)
@@ -254,8 +267,11 @@ func runC13(e *core.Env) {
 	gr := &gen.Graph{Root: root, Referrers: arts, DigestTags: map[string]*gen.Node{}, Shape: shape}
 	ep.install(gr, "v1", false)
 	if withBase {
-		ep.install(&gen.Graph{Root: baseOld.Node, DigestTags: map[string]*gen.Node{}}, "base-old", true)
-		ep.install(&gen.Graph{Root: baseNew.Node, DigestTags: map[string]*gen.Node{}}, "base-new", true)
+		baseEP.install(&gen.Graph{Root: baseOld.Node, DigestTags: map[string]*gen.Node{}}, "base-old", true)
+		baseEP.install(&gen.Graph{Root: baseNew.Node, DigestTags: map[string]*gen.Node{}}, "base-new", true)
+		if baseEP != ep {
+			e.Probe("base-images-in-another-repository")
+		}
 	}
 	// the foreign layer's content is also stored by the repository (as after a copy with external layers included)
 	gen.Walk(root, func(n *gen.Node) {
@@ -347,7 +363,7 @@ func runC13(e *core.Env) {
 		{"to-oci", func() mod.Opts { return mod.WithManifestToOCI() }, !docker, false},
 		{"data-64", func() mod.Opts { return mod.WithData(64) }, false, false},
 		{"data-4096", func() mod.Opts { return mod.WithData(4096) }, false, false},
-		{"data-0", func() mod.Opts { return mod.WithData(0) }, true, false},
+		{"data-0", func() mod.Opts { return mod.WithData(0) }, !inline, false},
 		{"external-urls-rm", func() mod.Opts { return mod.WithExternalURLsRm() }, !foreign, false},
 		{"to-oci-referrers", func() mod.Opts { return mod.WithManifestToOCIReferrers() }, shape != "index+attestation", false},
 		{"add-layer", func() mod.Opts {
@@ -363,14 +379,14 @@ func runC13(e *core.Env) {
 	if withBase {
 		pool = append(pool,
 			optGen{"rebase-refs", func() mod.Opts {
-				return mod.WithRebaseRefs(mustRef(base+":base-old"), mustRef(base+":base-new"))
+				return mod.WithRebaseRefs(mustRef(baseRef+":base-old"), mustRef(baseRef+":base-new"))
 			}, false, false},
 			optGen{"rebase-refs-same-base(no-op)", func() mod.Opts {
-				return mod.WithRebaseRefs(mustRef(base+":base-old"), mustRef(base+":base-old"))
+				return mod.WithRebaseRefs(mustRef(baseRef+":base-old"), mustRef(baseRef+":base-old"))
 			}, true, false},
 			optGen{"rebase-from-annotations", func() mod.Opts { return mod.WithRebase() }, false, false},
 			optGen{"layer-timestamp-set-base-ref", func() mod.Opts {
-				return mod.WithLayerTimestamp(mod.OptTime{Set: tSet, BaseRef: mustRef(base + ":base-old")})
+				return mod.WithLayerTimestamp(mod.OptTime{Set: tSet, BaseRef: mustRef(baseRef + ":base-old")})
 			}, false, false})
 	}
 	var chosen []optGen
@@ -396,7 +412,7 @@ func runC13(e *core.Env) {
 	}
 	epoc := e.Choose("gen", 2, "epoc") == 1
 	sample := map[string]any{"source_date_epoc": epoc, "shape": shape, "family": map[bool]string{true: "docker", false: "oci"}[docker], "layer_compression": comp, "endpoint": map[bool]string{true: "layout", false: "registry"}[useLayout], "target": tgtKind, "options": names,
-		"with_base_image": withBase, "foreign_layer": foreign, "build_args_in_history": buildArg}
+		"inline_data_in_source": inline, "with_base_image": withBase, "base_in_other_repository": baseEP != ep, "foreign_layer": foreign, "build_args_in_history": buildArg}
 	e.SetCase(fmt.Sprintf("%v|%s", sample, root.Digest), true, sample)
 	build := func() []mod.Opts {
 		var opts []mod.Opts
